@@ -130,7 +130,7 @@ claim(
 claim(
     "C20",
     "Lean 4 proof (reflexivity, symmetry, per-field inversion lemmas, logical relation from equality to the meaning specification) + differential correspondence with the real == in both orders and single-token mutants",
-    "Theorems C20_refl, C20_symm (and C20_symm_value / _stmt unconditionally), C20_discriminates_* (one inversion lemma per field of every node kind: == True ⇒ the fields are equal by value), C20_sound_parsed (any two circuits parse_jaqal_string returns — autoload off — that compare equal have identical let and register declarations and, for every override environment, meanings equal up to numeric value; no further hypothesis: parsed_parserLike shows every parsed circuit satisfies the invariant ParsedLike, including programs in which a macro parameter shadows the register a header alias refers to, and the order of the macro dictionaries does not matter), C20_sound / C20_sound_ordered / C20_sound_parsedLike (the same for hand-built circuits under explicit invariants), C20_ignored_fields_meaningless, and the generator lemmas C20_gen_total / _splice / _names. Counterexamples by `decide` document the repaired defects (a fundamental register equal to an alias of the same size in one direction only; Parameter == Constant).",
+    "Theorems C20_refl, C20_symm (and C20_symm_value / _stmt unconditionally), C20_discriminates_* (one inversion lemma per field of every node kind: == True ⇒ the fields are equal by value), C20_sound_parsed and C20_sound_parsed_any (Props/C20Autoload.lean: EVERY configuration, usepulses imports through any import function included, the two circuits possibly parsed under different configurations) (any two circuits parse_jaqal_string returns that compare equal have identical let and register declarations and, for every override environment, meanings equal up to numeric value; no further hypothesis: parsed_parserLike shows every parsed circuit satisfies the invariant ParsedLike, including programs in which a macro parameter shadows the register a header alias refers to, and the order of the macro dictionaries does not matter), C20_sound / C20_sound_ordered / C20_sound_parsedLike (the same for hand-built circuits under explicit invariants), C20_ignored_fields_meaningless, and the generator lemmas C20_gen_total / _splice / _names. Counterexamples by `decide` document the repaired defects (a fundamental register equal to an alias of the same size in one direction only; Parameter == Constant).",
     COMMON_NOTE + "C20_sound_full — soundness for ARBITRARY hand-built circuits without any invariant — is false and proved false (C20_sound_full_false: `[m1, m2 calls m1]` against `[m2 calls m1, m1]` compare equal and denote differently; the builder never makes the second). NaN is outside the model.",
     "DESIGN.md §7 C20",
 )
@@ -168,7 +168,7 @@ claim(
 claim(
     "C01",
     "Lean 4 proof (round trip cut into token / text / rebuild layers: the generator's tokens derive the circuit's statement tree in the grammar, lexing the generated text gives those tokens, the builder maps the tree back to the same circuit — for programs in any statement order, by a bubble-sort argument over the builder's loop; complete literal layer) + differential correspondence of the whole round trip and of each layer with generate_jaqal_program / parse_jaqal_string",
-    "C01_roundtrip_bounded proves, for EVERY text the parser accepts (any statement order, autoload off) whose circuit writes no integer of more than 4300 digits (decidable hypothesis IntsBounded), that the generator succeeds, its text is accepted, parses to a circuit == the original, generating again gives the same text byte for byte (C01_roundtrip_bounded_again: the re-parsed circuit is again IntsBounded), and the re-parsed circuit has the same gate-level meaning under every override environment (C01_meaning_parsed). Ingredients: C01_tokens_derive / C01_parse_toks (layer A: the tokens written for any printable circuit are a program of the grammar with tree unbuild c); C01_lex_gen_bounded with C01_lexsafe / C01_lexsafe_iff (layer B: lexing the generated text gives those tokens; names and floats of a parsed circuit are always writable, ints iff bounded); C01_reorder / C01_rebuild / C01_rebuild_exact (layer C: sorting an accepted program's statements into the generator's order does not change what the builder makes, and the builder maps unbuild c back to EXACTLY c); C01_printable, C01_no_same_kind_nesting, C01_wf; the literal layer C01_float_roundtrip, C01_int_roundtrip, C01_num_roundtrip, C01_*_stable, C01_no_token_merge*, C01_readers_are_the_regexes; C01_builder_api, C01_zero_step_rejected and the fixpoint lemmas for builder-API spellings. C01_big_stop shows in the model that the bound cannot be dropped.",
+    "C01_roundtrip_bounded proves, for EVERY text the parser accepts (any statement order; C01_roundtrip_bounded_any, C01_roundtrip_exact_any, C01_roundtrip_bounded_again_any, C01_meaning_parsed_any in Props/C01Autoload.lean: for EVERY configuration — autoload on, any import function, any injected gate table — by a simulation between the autoload builder and the plain builder started from the imported table, Lemmas/RoundTripAutoload.lean; the re-parse uses the same configuration, and C01_auto_inject_matters shows that this cannot be dropped) whose circuit writes no integer of more than 4300 digits (decidable hypothesis IntsBounded), that the generator succeeds, its text is accepted, parses to a circuit == the original, generating again gives the same text byte for byte (C01_roundtrip_bounded_again: the re-parsed circuit is again IntsBounded), and the re-parsed circuit has the same gate-level meaning under every override environment (C01_meaning_parsed). Ingredients: C01_tokens_derive / C01_parse_toks (layer A: the tokens written for any printable circuit are a program of the grammar with tree unbuild c); C01_lex_gen_bounded with C01_lexsafe / C01_lexsafe_iff (layer B: lexing the generated text gives those tokens; names and floats of a parsed circuit are always writable, ints iff bounded); C01_reorder / C01_rebuild / C01_rebuild_exact (layer C: sorting an accepted program's statements into the generator's order does not change what the builder makes, and the builder maps unbuild c back to EXACTLY c); C01_printable, C01_no_same_kind_nesting, C01_wf; the literal layer C01_float_roundtrip, C01_int_roundtrip, C01_num_roundtrip, C01_*_stable, C01_no_token_merge*, C01_readers_are_the_regexes; C01_builder_api, C01_zero_step_rejected and the fixpoint lemmas for builder-API spellings. C01_big_stop shows in the model that the bound cannot be dropped.",
     COMMON_NOTE + "One open known finding (int-beyond-str-limit, known_findings.txt): CPython cannot write or read an int of more than 4300 digits; a COMPUTED slice bound can exceed that (`register r[N]; let m -N; map a r[m:]; map b a[:]`, N = 4300 nines) and generate_jaqal_program raises ValueError on an accepted program — the unrestricted C01_roundtrip_full is therefore false of the code and of the model, the theorem carries IntsBounded, and the check prints the finding as KNOWN-FINDING (witness evaluated on every run; with 4299 nines the round trip works). C01_meaning_parsed adds the last clause of the property to the round trip: the re-parsed circuit has the same gate-level meaning under every override environment (C01_roundtrip_bounded composed with C20_sound_parsed).",
     "DESIGN.md §7 C01",
 )
